@@ -1830,7 +1830,8 @@ fn tls_probe(addr: SocketAddr, sni: &str, request: Option<&str>) -> Result<(Vec<
     last
 }
 
-fn tls_probe_once(addr: SocketAddr, sni: &str, request: Option<&str>) -> Result<(Vec<u8>, Option<u16>), String> {
+/// TCP + TLS handshake with the capturing verifier; `Ok((connection, socket, leaf DER))`
+fn tls_connect_capture(addr: SocketAddr, sni: &str, alpn: &[u8]) -> Result<(rustls::ClientConnection, TcpStream, Option<Vec<u8>>, Option<String>), String> {
     let provider = Arc::new(rustls::crypto::ring::default_provider());
     let cap = Arc::new(Capture(Mutex::new(None), provider.clone(), Mutex::new(vec![])));
     let mut ccfg = rustls::ClientConfig::builder_with_provider(provider)
@@ -1839,7 +1840,7 @@ fn tls_probe_once(addr: SocketAddr, sni: &str, request: Option<&str>) -> Result<
         .dangerous()
         .with_custom_certificate_verifier(cap.clone())
         .with_no_client_auth();
-    ccfg.alpn_protocols = vec![b"http/1.1".to_vec()];
+    ccfg.alpn_protocols = vec![alpn.to_vec()];
     let name = rustls::pki_types::ServerName::try_from(sni.to_string()).map_err(|e| e.to_string())?;
     let mut conn = rustls::ClientConnection::new(Arc::new(ccfg), name).map_err(|e| e.to_string())?;
     let mut stream = TcpStream::connect_timeout(&addr, Duration::from_secs(5)).map_err(|e| {
@@ -1855,15 +1856,26 @@ fn tls_probe_once(addr: SocketAddr, sni: &str, request: Option<&str>) -> Result<
     stream.set_read_timeout(Some(Duration::from_secs(10))).ok();
     stream.set_write_timeout(Some(Duration::from_secs(10))).ok();
     stream.set_nodelay(true).ok();
+    let mut hs_err = None;
     while conn.is_handshaking() {
         if let Err(e) = conn.complete_io(&mut stream) {
-            return match cap.0.lock().unwrap_or_else(|p| p.into_inner()).clone() {
-                Some(d) => Ok((d, None)),
-                None => Err(format!("handshake: {e}")),
-            };
+            hs_err = Some(format!("handshake: {e}"));
+            break;
         }
     }
-    let der = cap.0.lock().unwrap_or_else(|p| p.into_inner()).clone().ok_or("no certificate")?;
+    let der = cap.0.lock().unwrap_or_else(|p| p.into_inner()).clone();
+    Ok((conn, stream, der, hs_err))
+}
+
+fn tls_probe_once(addr: SocketAddr, sni: &str, request: Option<&str>) -> Result<(Vec<u8>, Option<u16>), String> {
+    let (mut conn, mut stream, der, hs_err) = tls_connect_capture(addr, sni, b"http/1.1")?;
+    if let Some(e) = hs_err {
+        return match der {
+            Some(d) => Ok((d, None)),
+            None => Err(e),
+        };
+    }
+    let der = der.ok_or("no certificate")?;
     let Some(req) = request else {
         conn.send_close_notify();
         let _ = conn.complete_io(&mut stream);
@@ -1883,6 +1895,90 @@ fn tls_probe_once(addr: SocketAddr, sni: &str, request: Option<&str>) -> Result<
     let head = String::from_utf8_lossy(&buf);
     let status = head.split_whitespace().nth(1).and_then(|x| x.parse::<u16>().ok());
     Ok((der, status))
+}
+
+fn h2_frame(ty: u8, flags: u8, sid: u32, payload: &[u8]) -> Vec<u8> {
+    let mut f = vec![(payload.len() >> 16) as u8, (payload.len() >> 8) as u8, payload.len() as u8, ty, flags];
+    f.extend_from_slice(&sid.to_be_bytes());
+    f.extend_from_slice(payload);
+    f
+}
+
+/// One HTTP/2 connection (ALPN h2) with SNI `sni` carrying one GET per authority, each on
+/// its own stream (connection coalescing: RFC 9113 9.1.1). The `:status` of each stream
+/// (`None`: the stream was reset / the connection ended without an answer).
+fn h2_probe(addr: SocketAddr, sni: &str, authorities: &[String]) -> Result<Vec<Option<u16>>, String> {
+    let (mut conn, mut stream, der, hs_err) = tls_connect_capture(addr, sni, b"h2")?;
+    if let Some(e) = hs_err {
+        return Err(e);
+    }
+    der.ok_or("no certificate")?;
+    if conn.alpn_protocol() != Some(&b"h2"[..]) {
+        return Err("alpn: h2 not negotiated".into());
+    }
+    let mut out = b"PRI * HTTP/2.0\r\n\r\nSM\r\n\r\n".to_vec();
+    out.extend_from_slice(&h2_frame(4, 0, 0, &[]));
+    let mut enc = loona_hpack::Encoder::new();
+    for (i, au) in authorities.iter().enumerate() {
+        let hs: Vec<(&[u8], &[u8])> = vec![(b":method", b"GET"), (b":scheme", b"https"), (b":path", b"/"), (b":authority", au.as_bytes())];
+        let block = enc.encode(hs);
+        out.extend_from_slice(&h2_frame(1, 0x4 | 0x1, 1 + 2 * i as u32, &block));
+    }
+    let mut tls = rustls::Stream::new(&mut conn, &mut stream);
+    tls.write_all(&out).and_then(|_| tls.flush()).map_err(|e| format!("write: {e}"))?;
+    let mut status: Vec<Option<u16>> = vec![None; authorities.len()];
+    let mut done = vec![false; authorities.len()];
+    let mut dec = loona_hpack::Decoder::new();
+    let mut buf: Vec<u8> = vec![];
+    let mut tmp = [0u8; 4096];
+    let deadline = std::time::Instant::now() + Duration::from_secs(10);
+    while done.iter().any(|d| !d) && std::time::Instant::now() < deadline {
+        match tls.read(&mut tmp) {
+            Ok(0) | Err(_) => break,
+            Ok(n) => buf.extend_from_slice(&tmp[..n]),
+        }
+        while buf.len() >= 9 {
+            let len = ((buf[0] as usize) << 16) | ((buf[1] as usize) << 8) | buf[2] as usize;
+            if buf.len() < 9 + len {
+                break;
+            }
+            let (ty, fl) = (buf[3], buf[4]);
+            let sid = u32::from_be_bytes([buf[5] & 0x7f, buf[6], buf[7], buf[8]]);
+            let payload: Vec<u8> = buf[9..9 + len].to_vec();
+            buf.drain(..9 + len);
+            if std::env::var("TLS_H2_DEBUG").is_ok() {
+                eprintln!("h2 frame ty={ty} fl={fl} sid={sid} len={len} payload={:?}", &payload[..payload.len().min(24)]);
+            }
+            let idx = if sid % 2 == 1 { Some(((sid - 1) / 2) as usize) } else { None }.filter(|i| *i < status.len());
+            match ty {
+                4 if fl & 1 == 0 => {
+                    let _ = tls.write_all(&h2_frame(4, 1, 0, &[]));
+                }
+                6 if fl & 1 == 0 => {
+                    let _ = tls.write_all(&h2_frame(6, 1, 0, &payload));
+                }
+                1 => {
+                    if let (Some(i), Ok(list)) = (idx, dec.decode(&payload)) {
+                        if status[i].is_none() {
+                            status[i] = list.iter().find(|(k, _)| k == b":status").and_then(|(_, v)| String::from_utf8_lossy(v).parse().ok());
+                        }
+                        if fl & 1 != 0 || status[i].is_some() {
+                            done[i] = true;
+                        }
+                    }
+                }
+                3 => {
+                    if let Some(i) = idx {
+                        done[i] = true;
+                    }
+                }
+                // GOAWAY: streams up to its last-stream-id are still answered; read on until EOF
+                7 => {}
+                _ => {}
+            }
+        }
+    }
+    Ok(status)
 }
 
 struct TlsE2e;
@@ -1941,6 +2037,8 @@ impl Area for TlsE2e {
             format!("route {test} {}", h("Other.Example.ORG:443")),
             format!("route {test} {}", h("example.org")),
             format!("route {test} {}", h("a.b.example.org")),
+            format!("routeh2 {test} {},{},{},{}", h("test.example.org"), h("www.example.org"), h("example.org"), h("other.test")),
+            format!("routeh2 {www} {},{}", h("www.example.org"), h("zz.example.org:443")),
             format!("rm 1"),
             format!("route {www} {}", h("test.example.org.")),
             format!("repl 0 2 50 {wild} -"),
@@ -1992,7 +2090,8 @@ impl Area for TlsE2e {
         grid.truncate(6);
         let mut ops = vec![format!("newe {}", grid.iter().map(|g| hx(g)).collect::<Vec<_>>().join(" "))];
         let k = rng.range(2, 4).min(nassets);
-        let mut pool: Vec<u64> = (0..nassets).collect();
+        // the last asset belongs to listener B
+        let mut pool: Vec<u64> = (0..nassets - 1).collect();
         rng.shuffle(&mut pool);
         pool.truncate(k as usize);
         let exps: [i64; 4] = [10, 20, 20, 30];
@@ -2056,6 +2155,21 @@ impl Area for TlsE2e {
                         a = format!("api.{b}");
                     }
                 }
+                if rng.chance(1, 2) {
+                    // the streams of one HTTP/2 connection: the SNI's own name, then other origins
+                    let mut aus = vec![sni_s.clone(), a.clone()];
+                    if rng.chance(1, 2) {
+                        let g: &Vec<u8> = rng.pick(&grid);
+                        aus.push(String::from_utf8_lossy(g).to_string());
+                    }
+                    if !reference.covered(sni_s.as_bytes()) {
+                        aus.retain(|x| !authority_host(x).eq_ignore_ascii_case(&sni_s));
+                    }
+                    if !aus.is_empty() {
+                        ops.push(format!("routeh2 {} {}", hx(sni_s.as_bytes()), aus.iter().map(|x| hx(x.as_bytes())).collect::<Vec<_>>().join(",")));
+                        continue;
+                    }
+                }
                 ops.push(format!("route {} {}", hx(sni_s.as_bytes()), hx(a.as_bytes())));
             }
         }
@@ -2076,7 +2190,12 @@ impl Area for TlsE2e {
 }
 
 /// one set-up attempt: worker, HTTPS listener, cluster, backend, one frontend per host
-fn e2e_setup(grid: &[Vec<u8>]) -> Result<(Worker, SocketAddr), String> {
+/// the certificate only listener B carries (never used by the ops on listener A)
+fn listener_b_cert() -> usize {
+    assets().certs.len() - 1
+}
+
+fn e2e_setup(grid: &[Vec<u8>]) -> Result<(Worker, SocketAddr, SocketAddr), String> {
     let backend = global_backend()?;
     let opts = WorkerOpts { request_deadline: Duration::from_secs(10), ..WorkerOpts::default() };
     let mut wk = Worker::start(opts).map_err(|e| format!("worker-start: {e:?}"))?;
@@ -2093,7 +2212,22 @@ fn e2e_setup(grid: &[Vec<u8>]) -> Result<(Worker, SocketAddr), String> {
     for hname in hosts {
         wk.add_https_frontend(l, &hname, "/", "c0").map_err(|e| format!("frontend: {hname}: {e:?}"))?;
     }
-    Ok((wk, l))
+    // a second HTTPS listener on the same worker with its own, fixed certificate for every grid
+    // name: certificate commands are addressed to one listener and must stay there
+    let lb = wk.add_https_listener().map_err(|e| format!("listener-b: {e:?}"))?;
+    let kb = &assets().certs[listener_b_cert()];
+    let names: Vec<Vec<u8>> = grid.to_vec();
+    let resp = wk
+        .request(RequestType::AddCertificate(AddCertificate {
+            address: lb.into(),
+            certificate: cert_and_key(kb, &names, false),
+            expired_at: Some(5),
+        }))
+        .map_err(|e| format!("listener-b-cert: {e:?}"))?;
+    if resp.status != ResponseStatus::Ok as i32 {
+        return Err(format!("listener-b-cert: {}", resp.message));
+    }
+    Ok((wk, l, lb))
 }
 
 /// the worker's own view of the listener's certificates: `QueryCertificatesFromWorkers`
@@ -2127,6 +2261,7 @@ fn run_e2e(ops: &[String]) -> Result<ImplRun, String> {
         let mut reference = Reference::default();
         let mut grid: Vec<Vec<u8>> = vec![];
         let mut worker: Option<(Worker, SocketAddr)> = None;
+        let mut listener_b: Option<SocketAddr> = None;
         let mut overlap = false;
         let mut after = false;
         let mut last_fields: Vec<String> = vec![];
@@ -2148,7 +2283,24 @@ fn run_e2e(ops: &[String]) -> Result<ImplRun, String> {
                     r.tags.push("setup-retry".into());
                     std::thread::sleep(Duration::from_millis(100 * (attempt + 1)));
                 }
-                let (wk, l) = started.map_err(|e| format!("setup: {e}"))?;
+                let (mut wk, l, lb) = started.map_err(|e| format!("setup: {e}"))?;
+                listener_b = Some(lb);
+                // a certificate command for an address that has no listener is refused
+                {
+                    let ghost = SocketAddress::new_v4(127, 0, 0, 1, 1);
+                    let names: Vec<Vec<u8>> = grid.to_vec();
+                    match wk.request(RequestType::AddCertificate(AddCertificate {
+                        address: ghost,
+                        certificate: cert_and_key(&a.certs[listener_b_cert()], &names, false),
+                        expired_at: Some(5),
+                    })) {
+                        Ok(resp) if resp.status == ResponseStatus::Ok as i32 => {
+                            r.oracle.push(("certificate-command-wrong-address-accepted".into(), "AddCertificate for 127.0.0.1:1 (no listener) answered OK".into()));
+                        }
+                        Ok(_) => r.tags.push("wrong-address:refused".into()),
+                        Err(e) => return Err(format!("worker-unresponsive: ghost add: {e:?}")),
+                    }
+                }
                 worker = Some((wk, l));
                 let mut fields = vec![];
                 for n in &grid {
@@ -2225,6 +2377,51 @@ fn run_e2e(ops: &[String]) -> Result<ImplRun, String> {
                         reference.replace(fr.id, id, &names, exp);
                     }
                     st
+                }
+                "routeh2" if w.len() >= 3 => {
+                    let sni = String::from_utf8_lossy(&unhex(w[1])).to_string();
+                    let aus: Vec<String> = w[2].split(',').map(|x| String::from_utf8_lossy(&unhex(x)).to_string()).collect();
+                    let mut got = h2_probe(l, &sni, &aus);
+                    if !matches!(&got, Ok(v) if v.iter().all(|x| x.is_some())) {
+                        match &got {
+                            Err(e) if e.starts_with(TRANSIENT) => return Err(e.clone()),
+                            _ => got = h2_probe(l, &sni, &aus),
+                        }
+                    }
+                    match got {
+                        Err(e) if e.starts_with(TRANSIENT) => return Err(e),
+                        Err(e) => r.out.push(format!("tls-error {e}")),
+                        Ok(sts) => {
+                            let served = reference.allowed(sni.as_bytes());
+                            let mut bits = vec![];
+                            for (au, st) in aus.iter().zip(sts.iter()) {
+                                let host = authority_host(au);
+                                let cover = served.iter().any(|i| reference.loaded[i].names.iter().any(|n| rfc6125_covers(&String::from_utf8_lossy(n), host)));
+                                r.tags.push(format!("h2req:{}:{}", if served.is_empty() { "default" } else { "cert" }, st.map(|s| s.to_string()).unwrap_or_else(|| "none".into())));
+                                match st {
+                                    Some(200) => {
+                                        if !cover {
+                                            let class = if served.is_empty() { "default-cert-authority-accepted" } else { "routed-uncovered-authority" };
+                                            r.oracle.push((class.into(), format!("e2e h2: SNI {sni:?} :authority {au:?} served {served:?} reached the backend")));
+                                        } else if !au.eq_ignore_ascii_case(&sni) {
+                                            r.tags.push("h2:coalesced-stream-routed".into());
+                                        }
+                                        bits.push("1".to_string());
+                                    }
+                                    Some(421) => {
+                                        if cover && served.len() == 1 {
+                                            r.oracle.push(("covered-authority-rejected".into(), format!("e2e h2: SNI {sni:?} :authority {au:?} served {served:?} got 421")));
+                                        }
+                                        bits.push("0".to_string());
+                                    }
+                                    Some(_) => bits.push("1".to_string()),
+                                    None => bits.push("?".to_string()),
+                                }
+                            }
+                            r.out.push(format!("allow={}", bits.join(",")));
+                        }
+                    }
+                    continue;
                 }
                 "route" if w.len() >= 3 => {
                     let sni = String::from_utf8_lossy(&unhex(w[1])).to_string();
@@ -2329,6 +2526,15 @@ fn run_e2e(ops: &[String]) -> Result<ImplRun, String> {
             }
             if overlap && matches!(w[0], "rm" | "repl") {
                 after = true;
+            }
+            // ---- listener isolation: B keeps presenting its own certificate, whatever happened on A
+            if let (Some(lb), false) = (listener_b, grid.is_empty()) {
+                let n = &grid[r.out.len() % grid.len()];
+                let f = served_field(lb, n, a)?;
+                r.tags.push("listener-b:probed".into());
+                if f != format!("c{}", listener_b_cert()) {
+                    r.oracle.push(("certificate-served-on-other-listener".into(), format!("after `{op}` on listener A, listener B presents {f} for {} instead of its own certificate c{}", String::from_utf8_lossy(n), listener_b_cert())));
+                }
             }
             // ---- C07 on the worker: FAILURE => nothing changed; OK => only what the command names
             if cert_op {
@@ -2450,7 +2656,7 @@ fn gen_c07(rng: &mut Rng, thorough: bool, e2e: bool) -> Vec<String> {
     grid.truncate(if e2e { 4 } else { 6 });
     let mut ops = vec![format!("{} {}", if e2e { "newe" } else { "new" }, grid.iter().map(|g| hx(g)).collect::<Vec<_>>().join(" "))];
     let k = rng.range(3, 5).min(nassets);
-    let mut pool: Vec<u64> = (0..nassets).collect();
+    let mut pool: Vec<u64> = (0..if e2e { nassets - 1 } else { nassets }).collect();
     rng.shuffle(&mut pool);
     pool.truncate(k as usize);
     let exps: [i64; 4] = [10, 20, 20, 30];
